@@ -455,6 +455,19 @@ pub fn scenarios(tier: Tier) -> Vec<Scenario> {
             v.push(Scenario::new(name, cfg, if tier.is_quick() { 3 } else { 5 }, move || race_body(&r)));
         }
     }
+    // the receiver vanishes while a multi-packet send is *waiting for it*: with kernel-enforced
+    // small buffers the sender blocks on a follow-up fragment until the receiver reads; once the
+    // receiver is gone that wait has to end with an error
+    if !cfg!(feature = "inproc") {
+        for carrier in [false, true] {
+            for stream in [vec![(true, false)], vec![(false, false), (true, true)]] {
+                let r = Race { stream, carrier };
+                let name = format!("{:?} with kernel-enforced 4608-byte buffers (the sender has to wait for the receiver)", r);
+                let cfg = Cfg { sched: true, fake_sndbuf: None, real_sndbuf: Some(4608), ..Default::default() };
+                v.push(Scenario::new(name, cfg, if tier.is_quick() { 2 } else { 3 }, move || race_body(&r)));
+            }
+        }
+    }
     v
 }
 
